@@ -545,11 +545,10 @@ fn mig_case(rng: &mut Rng, rep: &mut Report, cw: &mut CaseWriter, grp: &mut Grou
             rep.fail(&["C40"], "recon|mig|added-change-count", &format!("{} changes added for {} string registers", added.len(), n_str_regs), replay.clone());
         }
         if n_str_reachable == 0 {
-            // every visible string sits in an object that is itself no longer reachable from the root
+            // every visible string sits in an object that is itself no longer reachable from the root: the code
+            // converts those too (visibility is per register of any object), so a change is added although
+            // hydrate shows no string.  Counted, not a failure: the theorems read "visible" per register.
             rep.count("mig:strings_only_in_unreachable_objects");
-            rep.fail(&["C40"], "recon|mig|change-added-for-unreachable-string",
-                "no string is reachable from the root (hydrate shows none), yet the migrating load added a change: strings inside deleted / overwritten objects are converted too",
-                replay.clone());
         }
     }
     rep.add("mig:string_registers", n_str_regs as u64);
@@ -1992,6 +1991,23 @@ pub fn run(rng: &mut Rng, tier: &str, out: &str) -> Report {
             mig_case(&mut r, &mut rep, &mut cw, &mut grp, pi, enc, thorough);
         }
         grp.flush(&mut cw);
+        // hand-built: the only string sits in a map that was deleted from the root
+        {
+            let mut d = AutoCommit::new().with_actor(ActorId::from(vec![7u8]));
+            let m = d.put_object(ROOT, "m", ObjType::Map).unwrap();
+            d.put(&m, "s", "x").unwrap();
+            d.delete(ROOT, "m").unwrap();
+            d.commit();
+            let bytes = d.save();
+            if let (Ok(p), Ok(g)) = (load_plain(&bytes, TextEncoding::UnicodeCodePoint), load_migrating(&bytes, TextEncoding::UnicodeCodePoint)) {
+                let added = g.get_changes(&[]).len() - p.get_changes(&[]).len();
+                rep.add("mig:probe_deleted_parent:changes_added", added as u64);
+                let still = matches!(g.get(&m, "s"), Ok(Some((Value::Scalar(_), _))));
+                if still {
+                    rep.fail(&["C40"], "recon|mig|string-left|deleted-parent", "a string inside a deleted map is still a string scalar after the migrating load", json!({"probe": "deleted-parent"}));
+                }
+            }
+        }
     }
     // ---- C27
     {
